@@ -229,7 +229,7 @@ func templateReplay(e *Engine, o *Obl, repo, dir string) (bool, string, bool) {
 		if err != nil && !strings.Contains(out2, "GVC-") {
 			tr.WriteString("replay: test run failed: " + err.Error() + "\n")
 		}
-		if strings.Contains(out2, "GVC-VIOLATION") || (o.Kind == "nopanic" && strings.Contains(out2, "GVC-PANIC")) {
+		if strings.Contains(out2, "GVC-VIOLATION") || strings.Contains(out2, "GVC-PANIC") {
 			tr.WriteString("replay: REPRODUCED (the scenario violates the property on the real code)\n")
 			return true, tr.String(), true
 		}
